@@ -15,7 +15,6 @@ import (
 	"testing"
 	"time"
 
-	"github.com/ansible/receptor/pkg/logger"
 	"verif/sim/simnet"
 	"verif/sim/simwork"
 )
@@ -81,9 +80,7 @@ func runReal(t *testing.T, p *RealPlan, prop string, res *simnet.Result) {
 		res.Add("probe_real_runner_unavailable", 1)
 		return
 	}
-	// (the daemon passes its log level to the runner by name; "quiet" has none)
-	logger.SetGlobalLogLevel(logger.ErrorLevel)
-	defer quiet()
+	// (the daemon passes its log level to the runner by name; "quiet" has none: TestC13/TestC14 run at level "error")
 	runDir := simwork.NewRunDir()
 	defer simwork.RemoveRunDir(runDir)
 	gate, err := simwork.NewGate(filepath.Join(runDir, "gate"))
